@@ -1,42 +1,76 @@
 import GolibsVerif.Lemmas.RedisConc
 import GolibsVerif.Props.Lin
-/-! Simulation relation between `RedisConc` and `Lin.Sys` over the KV contract, and its preservation
-(helpers for Props/C02Redis.lean; `Corr` is part of the statement of `C02Redis.simulates`). -/
+/-! Simulation relation between `RedisConc` and `Lin.Sys` over the KV contract with its clock, and its
+preservation (helpers for Props/C02Redis.lean; `Corr` is part of the statement of `C02Redis.simulates`). -/
 namespace C02Redis
 open Kv RedisConc Lin
 
-/-- how a client's program counter corresponds to the state of its operation in the `Lin` system -/
-def Corr (p : Pc) (ts : TSt Op Out) : Prop :=
-  match p, ts with
-  | .idle, .idle => True
-  | .done r, .linearized _ _ r' => r = r'
-  | .idle, _ => False
-  | .done _, _ => False
-  | p, .pending _ op => opOf p = some op
-  | _, _ => False
+/-- how a client's program counter corresponds to the state of its operation in the `Lin` system:
+Lin thread `idle` ↔ the client is at `idle`, or inside / at the end of the PutMany loop (whose SETs
+are complete Puts of their own); `pending _ (op o)` ↔ the pc belongs to operation `o` (`opOf`) and
+the operation has not taken effect; `linearized _ _ r` ↔ the pc is `done r`.  A client never runs
+the clock's operation `tick`. -/
+def Corr (p : Pc) (ts : TSt LOp Out) : Prop :=
+  match ts with
+  | .idle => p = .idle ∨ p = .loopDone ∨ ∃ rs, p = .putLoop rs
+  | .pending _ (.op o) => opOf p = some o
+  | .pending _ (.tick _) => False
+  | .linearized _ _ r => p = .done r
 
 /-! ### helper lemmas about `Corr` and the simulation relation -/
 
-theorem Corr_idle {ts : TSt Op Out} (h : Corr .idle ts) : ts = .idle := by
-  cases ts <;> simp [Corr] at h ⊢
+theorem Corr_idle {ts : TSt LOp Out} (h : Corr .idle ts) : ts = .idle := by
+  cases ts with
+  | idle => rfl
+  | pending id i => cases i <;> simp [Corr, opOf] at h
+  | linearized id i r => simp [Corr] at h
 
-theorem Corr_done {r : Out} {ts : TSt Op Out} (h : Corr (.done r) ts) : ∃ id i, ts = .linearized id i r := by
+theorem Corr_loopDone {ts : TSt LOp Out} (h : Corr .loopDone ts) : ts = .idle := by
+  cases ts with
+  | idle => rfl
+  | pending id i => cases i <;> simp [Corr, opOf] at h
+  | linearized id i r => simp [Corr] at h
+
+theorem Corr_putLoop {rs : List (String × String × Option Nat)} {ts : TSt LOp Out}
+    (h : Corr (.putLoop rs) ts) : ts = .idle := by
+  cases ts with
+  | idle => rfl
+  | pending id i => cases i <;> simp [Corr, opOf] at h
+  | linearized id i r => simp [Corr] at h
+
+theorem Corr_done {r : Out} {ts : TSt LOp Out} (h : Corr (.done r) ts) : ∃ id i, ts = .linearized id i r := by
   cases ts with
   | linearized id i r' => simp [Corr] at h; subst h; exact ⟨_, _, rfl⟩
-  | _ => simp [Corr] at h
+  | idle => simp [Corr] at h
+  | pending id i => cases i <;> simp [Corr, opOf] at h
 
-theorem Corr_opOf {p : Pc} {op : Op} {ts : TSt Op Out} (ho : opOf p = some op) (h : Corr p ts) :
-    ∃ id, ts = .pending id op := by
-  cases p <;> cases ts <;> simp [Corr, opOf] at h ho <;> subst ho <;> subst h <;> exact ⟨_, rfl⟩
+theorem Corr_opOf {p : Pc} {op : Op} {ts : TSt LOp Out} (ho : opOf p = some op) (h : Corr p ts) :
+    ∃ id, ts = .pending id (.op op) := by
+  cases ts with
+  | idle =>
+    simp only [Corr] at h
+    rcases h with rfl | rfl | ⟨rs, rfl⟩ <;> simp [opOf] at ho
+  | pending id i =>
+    cases i with
+    | op o => simp only [Corr] at h; rw [ho] at h; cases h; exact ⟨_, rfl⟩
+    | tick d => simp [Corr] at h
+  | linearized id i r => simp only [Corr] at h; subst h; simp [opOf] at ho
 
-theorem Corr_pending {p : Pc} {op : Op} (ho : opOf p = some op) (id : Nat) : Corr p (.pending id op) := by
-  cases p <;> simp [Corr, opOf] at ho ⊢ <;> exact ho
+theorem Corr_pending {p : Pc} {op : Op} (ho : opOf p = some op) (id : Nat) : Corr p (.pending id (.op op)) := ho
 
-def Sim (s : St) (L : Sys Spec Op Out) : Prop :=
-  L.st = s.srv ∧ ∀ (t : Nat) (p : Pc), s.pc[t]? = some p → Corr p (L.th t)
+theorem Corr_loopNext (rest : List (String × String × Option Nat)) : Corr (loopNext rest) .idle := by
+  cases rest with
+  | nil => exact .inr (.inl rfl)
+  | cons a rest => exact .inr (.inr ⟨_, rfl⟩)
 
-theorem corr_update {pc : List Pc} {th : Nat → TSt Op Out}
-    (hc : ∀ (t : Nat) (p : Pc), pc[t]? = some p → Corr p (th t)) (t : Nat) (p' : Pc) (ts' : TSt Op Out)
+/-- the simulation relation: contract state and time = server state and time, every client's
+operation is in the corresponding phase, and the clock thread is idle -/
+def Sim (s : St) (L : Sys (Spec × Nat) LOp Out) : Prop :=
+  L.st = (s.srv, s.now) ∧ (∀ (t : Nat) (p : Pc), s.pc[t]? = some p → Corr p (L.th t)) ∧
+    L.th s.pc.length = .idle
+
+theorem corr_update {pc : List Pc} {th : Nat → TSt LOp Out}
+    (hc : ∀ (t : Nat) (p : Pc), pc[t]? = some p → Corr p (th t)) (t : Nat) (p' : Pc) (ts' : TSt LOp Out)
     (h' : Corr p' ts') :
     ∀ (t' : Nat) (p : Pc), (pc.set t p')[t']? = some p → Corr p (setTh th t ts' t') := by
   intro t' p hp
@@ -52,47 +86,81 @@ theorem corr_update {pc : List Pc} {th : Nat → TSt Op Out}
   · rw [List.getElem?_set_ne (Ne.symm htt)] at hp
     simpa [setTh, htt] using hc t' p hp
 
-theorem sim_step {s s' : St} {L : Sys Spec Op Out} {e : RedisConc.Ev} {l : List (Lin.Ev Op Out)}
+/-- the client's pc changes, its Lin thread does not -/
+theorem corr_update_same {pc : List Pc} {th : Nat → TSt LOp Out}
+    (hc : ∀ (t : Nat) (p : Pc), pc[t]? = some p → Corr p (th t)) (t : Nat) (p' : Pc)
+    (h' : Corr p' (th t)) :
+    ∀ (t' : Nat) (p : Pc), (pc.set t p')[t']? = some p → Corr p (th t') := by
+  intro t' p hp
+  by_cases htt : t' = t
+  · subst htt
+    rw [List.getElem?_set_self'] at hp
+    cases hq : pc[t']? with
+    | none => simp [hq] at hp
+    | some q =>
+      simp [hq] at hp
+      subst hp
+      exact h'
+  · rw [List.getElem?_set_ne (Ne.symm htt)] at hp
+    exact hc t' p hp
+
+theorem setTh_ne {th : Nat → TSt LOp Out} {t c : Nat} (ts : TSt LOp Out) (h : t < c) :
+    setTh th t ts c = th c := by
+  have : c ≠ t := by omega
+  simp [setTh, this]
+
+theorem sim_step {s s' : St} {L : Sys (Spec × Nat) LOp Out} {e : RedisConc.Ev} {l : List (Lin.Ev LOp Out)}
     (hi : WInv s) (hs : Sim s L) (h : step s e = some (s', l)) :
     ∃ L', L.run obj l = some L' ∧ Sim s' L' := by
-  obtain ⟨hst, hc⟩ := hs
+  obtain ⟨hst, hc, hck⟩ := hs
   cases e with
   | call t op =>
     simp only [RedisConc.step] at h
     split at h
     · rename_i p hp he
       simp only [Option.some.injEq, Prod.mk.injEq] at h; obtain ⟨rfl, rfl⟩ := h
+      have hlt : t < s.pc.length := (List.getElem?_eq_some_iff.mp hp).1
       have hth := Corr_idle (hc t _ hp)
-      refine ⟨{ L with th := setTh L.th t (.pending L.pos op), pos := L.pos + 1 }, ?_, hst, ?_⟩
-      · simp [Sys.run, Sys.ev, hth]
-      · exact corr_update hc t p _ (Corr_pending (entry_opOf he) _)
+      rcases entry_opOf he with ⟨ho, hev⟩ | ⟨rs, rfl, hev⟩
+      · refine ⟨{ L with th := setTh L.th t (.pending L.pos (.op op)), pos := L.pos + 1 }, ?_, hst, ?_, ?_⟩
+        · simp [hev, Sys.run, Sys.ev, hth]
+        · exact corr_update hc t p _ (Corr_pending ho _)
+        · simp only [St.setPc, List.length_set]
+          rw [setTh_ne _ hlt]; exact hck
+      · refine ⟨L, by simp [hev, Sys.run], hst, ?_, by simpa [St.setPc] using hck⟩
+        exact corr_update_same hc t _ (by rw [hth]; exact .inr (.inr ⟨_, rfl⟩))
     · cases h
   | cmd t =>
     simp only [RedisConc.step] at h
-    cases hcs : cmdStep s t with
-    | none => simp [hcs] at h
-    | some x =>
-      obtain ⟨s1, b⟩ := x
-      simp only [hcs, Option.map_some, Option.some.injEq, Prod.mk.injEq] at h
-      obtain ⟨rfl, rfl⟩ := h
-      obtain ⟨p, op, hp, ho, hcase⟩ := cmdStep_shape hi hcs
-      obtain ⟨id, hth⟩ := Corr_opOf ho (hc t p hp)
-      rcases hcase with ⟨rfl, hsrv, hpc⟩ | ⟨rfl, hsrv, p', ho', hpc⟩
-      · refine ⟨{ L with st := (obj.step L.st op).1, th := setTh L.th t (.linearized id op (obj.step L.st op).2),
-                         pos := L.pos + 1, order := L.order ++ [(id, op, (obj.step L.st op).2)] }, ?_, ?_, ?_⟩
-        · simp [Sys.run, Sys.ev, hth]
-        · simp [obj, hst, hsrv]
-        · rw [hpc]
-          refine corr_update hc t _ _ ?_
-          simp [Corr, obj, hst]
-      · refine ⟨L, by simp [Sys.run], by rw [hsrv]; exact hst, ?_⟩
-        rw [hpc]
-        have := corr_update hc t p' (L.th t) (by rw [hth]; exact Corr_pending ho' _)
-        intro t' q hq
-        have h2 := this t' q hq
-        by_cases htt : t' = t
-        · subst htt; simpa [setTh] using h2
-        · simpa [setTh, htt] using h2
+    obtain ⟨p, hp, hnow, hcase⟩ := cmdStep_shape hi h
+    have hlt : t < s.pc.length := (List.getElem?_eq_some_iff.mp hp).1
+    rcases hcase with ⟨op, ho, rfl, hsrv, hpc⟩ | ⟨op, ho, rfl, hsrv, p', ho', hpc⟩ |
+        ⟨k, v, e, rest, rfl, rfl, hsrv, hpc⟩
+    · obtain ⟨id, hth⟩ := Corr_opOf ho (hc t p hp)
+      refine ⟨{ L with st := (obj.step L.st (.op op)).1,
+                       th := setTh L.th t (.linearized id (.op op) (obj.step L.st (.op op)).2),
+                       pos := L.pos + 1, order := L.order ++ [(id, .op op, (obj.step L.st (.op op)).2)] }, ?_, ?_, ?_, ?_⟩
+      · simp [Sys.run, Sys.ev, hth]
+      · simp [obj, hst, hsrv, hnow]
+      · rw [hpc]
+        refine corr_update hc t _ _ ?_
+        simp [Corr, obj, hst]
+      · rw [hpc, List.length_set]
+        simp only
+        rw [setTh_ne _ hlt]; exact hck
+    · obtain ⟨id, hth⟩ := Corr_opOf ho (hc t p hp)
+      refine ⟨L, by simp [Sys.run], by rw [hsrv, hnow]; exact hst, ?_, by rw [hpc, List.length_set]; exact hck⟩
+      rw [hpc]
+      exact corr_update_same hc t p' (by rw [hth]; exact Corr_pending ho' _)
+    · have hth := Corr_putLoop (hc t _ hp)
+      have hres : Out.okVer s.srv.nextVer = (obj.step L.st (.op (.put k v e))).2 := by
+        simp [obj, hst, Spec.step, Spec.write]
+      rw [hres, run_complete obj L t _ hth]
+      refine ⟨_, rfl, ?_, ?_, ?_⟩
+      · simp [obj, hst, Spec.step, hsrv, hnow]
+      · rw [hpc]
+        exact corr_update_same hc t _ (by rw [hth]; exact Corr_loopNext rest)
+      · rw [hpc, List.length_set]; exact hck
   | ret t r =>
     simp only [RedisConc.step] at h
     split at h
@@ -101,14 +169,31 @@ theorem sim_step {s s' : St} {L : Sys Spec Op Out} {e : RedisConc.Ev} {l : List 
       · rename_i hrr
         subst hrr
         simp only [Option.some.injEq, Prod.mk.injEq] at h; obtain ⟨rfl, rfl⟩ := h
+        have hlt : t < s.pc.length := (List.getElem?_eq_some_iff.mp hp).1
         obtain ⟨id, i, hth⟩ := Corr_done (hc t _ hp)
-        refine ⟨{ L with th := setTh L.th t .idle, pos := L.pos + 1, retPos := L.retPos ++ [(id, L.pos)] }, ?_, hst, ?_⟩
+        refine ⟨{ L with th := setTh L.th t .idle, pos := L.pos + 1, retPos := L.retPos ++ [(id, L.pos)] }, ?_, hst, ?_, ?_⟩
         · simp [Sys.run, Sys.ev, hth]
-        · exact corr_update hc t .idle _ (by simp [Corr])
+        · exact corr_update hc t .idle _ (.inl rfl)
+        · simp only [St.setPc, List.length_set]
+          rw [setTh_ne _ hlt]; exact hck
+      · cases h
+    · rename_i hp
+      split at h
+      · simp only [Option.some.injEq, Prod.mk.injEq] at h; obtain ⟨rfl, rfl⟩ := h
+        have hth := Corr_loopDone (hc t _ hp)
+        refine ⟨L, by simp [Sys.run], hst, ?_, by simpa [St.setPc] using hck⟩
+        exact corr_update_same hc t _ (by rw [hth]; exact .inl rfl)
       · cases h
     · cases h
+  | tick d =>
+    obtain ⟨_, rfl, rfl⟩ := tick_shape h
+    have hres : Out.ok = (obj.step L.st (.tick d)).2 := by simp [obj]
+    rw [hres, run_complete obj L _ _ hck]
+    refine ⟨_, rfl, ?_, hc, hck⟩
+    simp [obj, hst]
 
-theorem sim_runL {es : List RedisConc.Ev} : ∀ {s s' : St} {L : Sys Spec Op Out} {ls : List (Lin.Ev Op Out)},
+theorem sim_runL {es : List RedisConc.Ev} :
+    ∀ {s s' : St} {L : Sys (Spec × Nat) LOp Out} {ls : List (Lin.Ev LOp Out)},
     WInv s → Sim s L → runL s es = some (s', ls) → ∃ L', L.run obj ls = some L' ∧ Sim s' L' := by
   induction es with
   | nil =>
@@ -125,13 +210,13 @@ theorem sim_runL {es : List RedisConc.Ev} : ∀ {s s' : St} {L : Sys Spec Op Out
     rw [run_append, hL1]
     exact hL2
 
-theorem sim_init (n : Nat) : Sim (St.init n) (Sys.init Spec.new) := by
-  refine ⟨rfl, ?_⟩
+theorem sim_init (n : Nat) : Sim (St.init n) (Sys.init (Spec.new, 0)) := by
+  refine ⟨rfl, ?_, rfl⟩
   intro t p hp
   simp only [St.init] at hp
   rw [List.getElem?_replicate] at hp
   split at hp
-  · cases hp; simp [Corr, Sys.init]
+  · cases hp; exact .inl rfl
   · cases hp
 
 end C02Redis
